@@ -20,9 +20,9 @@ FORMULAS = {
 U2 = ["u1", "u2"]
 
 
-def consts(tx, bt, cl, fxh, exth, ev, fee, base, minf, kb=1, kc=1, dep=1, init=3, feeops=True, entries=("msg",)):
+def consts(tx, bt, cl, fxh, exth, ev, fee, base, minf, kb=1, kc=1, dep=1, init=3, feeops=True, entries=("msg",), depkinds=("dep",)):
     return dict(User=U2, MaxTx=tx, MaxBatch=bt, MaxCall=cl, MaxDep=dep, MaxFx=fxh, MaxExt=exth, MaxEv=ev, Amt=[1], Fee=fee,
-                BaseFees=base, MinFees=minf, InitBal=init, KB=kb, KC=kc, FeeOps=feeops, Entries=list(entries))
+                BaseFees=base, MinFees=minf, InitBal=init, KB=kb, KC=kc, FeeOps=feeops, Entries=list(entries), DepKinds=list(depkinds))
 
 
 def harness(chain, c, token="FX"):
@@ -39,7 +39,7 @@ POOL_Q = consts(2, 2, 0, 1, 1, 3, [1, 2], [0, 2], [1, 3])
 CALL_Q = consts(0, 0, 2, 0, 2, 4, [1], [0], [1])
 CALLDEP_Q = consts(0, 0, 1, 0, 1, 3, [1], [0], [1], dep=2)   # result parked, then a deposit event at height >= timeout
 CALLDEP_T = consts(0, 0, 2, 0, 2, 4, [1], [0], [1], dep=2)
-MIXPAIR_Q = consts(1, 1, 1, 0, 2, 4, [1], [0], [1], feeops=False, entries=("msg", "evm"))   # same family on a module-owned ERC-20 pair (bridge denomination + base coin)
+MIXPAIR_Q = consts(1, 1, 1, 0, 2, 4, [1], [0], [1], feeops=False, entries=("msg", "evm"), depkinds=("dep", "depc"))   # same family on a module-owned ERC-20 pair (bridge denomination + base coin)
 MIX_Q = consts(1, 1, 1, 0, 2, 4, [1], [0], [1])
 POOL_T = consts(2, 2, 0, 2, 2, 3, [1, 2], [0, 2], [1, 3])
 CALL_T = consts(0, 0, 2, 1, 3, 4, [1], [0], [1], kc=2)
@@ -69,7 +69,7 @@ GEN = [
 
 
 REC_CONSTS = dict(User=["u1", "u2", "u3"], MaxTx=5, MaxBatch=3, MaxCall=3, MaxDep=3, MaxFx=6, MaxExt=8, MaxEv=9, Amt=[1, 2], Fee=[1, 2],
-                  BaseFees=[0, 1, 2], MinFees=[1, 3], InitBal=6, KB=1, KC=2, FeeOps=True, Entries=["msg"])
+                  BaseFees=[0, 1, 2], MinFees=[1, 3], InitBal=6, KB=1, KC=2, FeeOps=True, Entries=["msg"], DepKinds=["dep"])
 RECORDER = specs.make_recorder(module="Outgoing", mcmodule="OutgoingMC", pkg="outgoing", name="outgoing3", consts=REC_CONSTS, overrides=None,
                                harness=harness("eth", REC_CONSTS), reset_op=RESET, tiers=["quick", "thorough", "dev"], walks=6, walklen=80, procs=8)
 
